@@ -1,5 +1,8 @@
 """C07 closures alias lvalues and own rvalues.
 
+(parts added later: conversion matrix gen_conv.py, pointer payloads gen_ptr.py, temporary wrappers gen_tmp.py, reference-like
+payloads gen_nest.py - generated case matrices, one program per payload / shard, every case replayable on its own)
+
 static part : gen_static.py holds the reference rule and emits one type identity per (trait / factory / accessor, source
               form, payload type); the compiler is the executor (table programs; every failing row is confirmed and replayed
               as a one-assert static_assert translation unit).
@@ -9,6 +12,7 @@ dynamic part: dyn.cpp (13 wrapper kinds, one binary each) x source category x pa
 """
 import hashlib
 import os
+import re
 import subprocess
 import sys
 
@@ -19,6 +23,8 @@ sys.path.insert(0, HERE)
 import gen_static  # noqa: E402
 import gen_conv  # noqa: E402
 import gen_ptr  # noqa: E402
+import gen_tmp  # noqa: E402
+import gen_nest  # noqa: E402
 
 LEVEL = "exploration"
 DYN = os.path.join(HERE, "dyn.cpp")
@@ -228,7 +234,7 @@ def run_static(ctx, fronts):
 
 
 # ------------------------------------------------------------------------------------------- generated case matrices (conversions, pointer payloads)
-MATRICES = {"conv": gen_conv, "ptr": gen_ptr}
+MATRICES = {"conv": gen_conv, "ptr": gen_ptr, "tmp": gen_tmp, "nest": gen_nest}
 
 
 def mx_sig(which, c, kind):
@@ -255,6 +261,12 @@ def mx_syntax(which, c, tag, ptype):
 
 
 def mx_ill_formed(ctx, which, c, tag, ptype, first):
+    gen = MATRICES[which]
+    if hasattr(gen, "ill_formed_is_gap") and gen.ill_formed_is_gap(c, tag):
+        ctx.stat("ill_formed_cases_of_payloads_overloading_address_of", 1)
+        ctx.note("capability gap (no executions, not a violation): %s case %s [payload %s] does not compile; the payload overloads unary operator& "
+                 "(see gen_nest.ill_formed_is_gap): %s" % (which, c.id if c.depth <= 1 else c.kind + "|" + c.closure + "|<a longer sequence>", ptype, first.split("error:")[-1].strip()[:200]))
+        return
     ctx.violation(mx_sig(which, c, "ill-formed"),
                   "%s case %s [payload %s] no longer compiles (it is not in the committed list of ill-formed forms): %s" % (which, c.id, ptype, first),
                   harness=which, args=[which, c.id, tag])
@@ -310,6 +322,93 @@ def run_matrix(ctx, which):
     vlib.parallel(jobs, workers=6)
 
 
+# ------------------------------------------------------------------------------------------- sharded case matrices (temporary wrappers, reference-like payloads)
+SHARD = 400
+
+
+def all_cases(gen, tag, tier="thorough"):
+    return gen.cases_for(tag, tier) if hasattr(gen, "cases_for") else gen.cases()
+
+
+def _case_lines(text, n):
+    """line number (1-based) at which case i starts in a generated translation unit"""
+    starts = {}
+    for ln, line in enumerate(text.splitlines(), 1):
+        m = re.match(r"static void case(\d+)\(\)", line)
+        if m:
+            starts[int(m.group(1))] = ln
+    return [starts[i] for i in range(n)]
+
+
+def shard_build(ctx, which, chunk, tag, ptype, name, std):
+    """build one shard; if it does not compile, find the ill-formed cases (first through the line numbers in the diagnostics, each
+    suspect confirmed on its own; then, if that does not converge, every case on its own), report them, build the rest"""
+    gen = MATRICES[which]
+    try:
+        return mx_build(which, chunk, tag, ptype, name, std)
+    except vlib.HarnessError:
+        pass
+    ctx.note("the %s program %s for %s did not compile: its ill-formed cases were looked for one by one" % (which, name, ptype))
+    remaining = list(chunk)
+    for rnd in range(2):
+        src = os.path.join(GEN, "%s_%s_%s_syn%d.cpp" % (which, name, tag, rnd))
+        text = gen.tu(remaining, tag, ptype)
+        _write(src, text)
+        r = vlib.sh(["g++", "-std=" + std, "-I" + vlib.INCLUDE, "-I" + os.path.join(vlib.VERIF, "engine"), "-I" + HERE, "-fsyntax-only", src])
+        if r.returncode == 0:
+            break
+        starts = _case_lines(text, len(remaining))
+        hit = set(int(m) for m in re.findall(re.escape(src) + r":(\d+):", r.stderr))
+        suspects = [c for i, c in enumerate(remaining) if any(starts[i] <= ln < starts[i] + 5 for ln in hit)]
+        res = vlib.parallel([(lambda c=c: mx_syntax(which, c, tag, ptype)) for c in suspects], workers=8) if suspects else []
+        bad = [(c, first) for c, (ok, first) in zip(suspects, res) if not ok]
+        if not bad:
+            # the diagnostics did not lead to a case: every case on its own
+            res = vlib.parallel([(lambda c=c: mx_syntax(which, c, tag, ptype)) for c in remaining], workers=8)
+            bad = [(c, first) for c, (ok, first) in zip(remaining, res) if not ok]
+            for c, first in bad:
+                mx_ill_formed(ctx, which, c, tag, ptype, first)
+            gone = set(c.id for c, _ in bad)
+            remaining = [c for c in remaining if c.id not in gone]
+            break
+        for c, first in bad:
+            mx_ill_formed(ctx, which, c, tag, ptype, first)
+        gone = set(c.id for c, _ in bad)
+        remaining = [c for c in remaining if c.id not in gone]
+    if not remaining:
+        return None
+    try:
+        return mx_build(which, remaining, tag, ptype, name + "r", std)
+    except vlib.HarnessError:
+        res = vlib.parallel([(lambda c=c: mx_syntax(which, c, tag, ptype)) for c in remaining], workers=8)
+        for c, (ok, first) in zip(remaining, res):
+            if not ok:
+                mx_ill_formed(ctx, which, c, tag, ptype, first)
+        remaining = [c for c, (ok, _) in zip(remaining, res) if ok]
+        return mx_build(which, remaining, tag, ptype, name + "rr", std) if remaining else None
+
+
+def run_sharded(ctx, which, stds=("c++14",)):
+    gen = MATRICES[which]
+    jobs = []
+    for tag, ptype in gen.payloads(ctx.tier):
+        cs = all_cases(gen, tag, ctx.tier)
+        good = [c for c in cs if not gen.listed(c, tag)]
+        probes = [c for c in cs if gen.is_probe(c, tag, ctx.tier)]
+        for std in stds:
+            for i in range(0, len(good), SHARD):
+                def shard(chunk=good[i:i + SHARD], tag=tag, ptype=ptype, name="s%d-%s" % (i // SHARD, std.replace("+", "x")), std=std):
+                    if ctx.time_left() < 30:
+                        ctx.cap("deadline: not run: %s cases %s of %s (-std=%s)" % (which, name, ptype, std))
+                        return
+                    binary = shard_build(ctx, which, chunk, tag, ptype, name, std)
+                    if binary:
+                        ctx.run_harness(binary, [], env=ENV, tag=which)
+                jobs.append(shard)
+        jobs += [(lambda c=c, tag=tag, ptype=ptype: mx_one(ctx, which, c, tag, ptype)) for c in probes]
+    vlib.parallel(jobs, workers=6)
+
+
 # ------------------------------------------------------------------------------------------- entry points
 def _lockify(ctx):
     """the harnesses run in threads: make the collecting methods of ctx atomic so that the measured counts are exact"""
@@ -333,7 +432,18 @@ def run(ctx):
     bit_len = 3 if quick else 4
     stds = ["c++14"] if quick else ["c++14", "c++20"]
     # both parts at once: the static tables compile while the dynamic binaries compile
-    vlib.parallel([lambda: run_static(ctx, fronts), lambda: run_dynamic(ctx, maxlen, bit_len, stds), lambda: run_matrix(ctx, "conv"), lambda: run_matrix(ctx, "ptr")], workers=4)
+    mstds = ("c++14",) if quick else ("c++14", "c++17")
+    parts = {"static": lambda: run_static(ctx, fronts), "dyn": lambda: run_dynamic(ctx, maxlen, bit_len, stds), "conv": lambda: run_matrix(ctx, "conv"),
+             "ptr": lambda: run_matrix(ctx, "ptr"), "tmp": lambda: run_sharded(ctx, "tmp", mstds), "nest": lambda: run_sharded(ctx, "nest", mstds)}
+    # C07_PARTS=tmp,nest runs some parts alone (measurements, development); such a run is recorded as not exhaustive
+    sel = [p for p in os.environ.get("C07_PARTS", "").split(",") if p]
+    for p in sel:
+        if p not in parts:
+            raise vlib.HarnessError("C07_PARTS: unknown part %s (known: %s)" % (p, ", ".join(parts)))
+    if sel:
+        ctx.cap("C07_PARTS=%s: only these parts were run" % ",".join(sel))
+    # all parts at once: the static tables compile while the dynamic binaries compile
+    vlib.parallel([f for name, f in parts.items() if not sel or name in sel], workers=6)
     ctx.rule = (
         "STATIC: every type identity generated by gen_static.py (closure_type_t, const_closure_type_t, ptr_closure_type_t, const_ptr_closure_type_t over "
         "{T, const T, T&, const T&, T&&, const T&&} x {int, Counted, MoveOnly, int*}; apply_cv_t and detail::forward_type_t over all 4 cv x 3 ref forms; return types of closure, "
@@ -356,10 +466,24 @@ def run(ctx):
         "never touched. CONVERSIONS: a reference-closure wrapper built from lvalues (closure, proxy_wrapper, closure_pointer, optional, masked_value, xcomplex; closure T& and const T&) used as lvalue, xvalue and "
         "prvalue-proxy source of an owning specialization or value (converting constructors implicit and explicit, converting assignments, &&-qualified accessors and conversion operators, "
         "162 forms) x payload {Counted, heap std::string, std::vector<int>}: the originals keep their value and are never the source of a move, the result is equal and independent. "
+        "TEMPORARY WRAPPERS (gen_tmp.py): the WRAPPER itself is the temporary returned by the factory (also: passed on as an xvalue, a named lvalue / const lvalue / xvalue that stays alive): "
+        "{closure, const_closure, proxy_wrapper, optional(v,true), masked_value(v,true), masked_value(v), xcomplex real part, xcomplex imaginary part, closure_pointer} x closure source "
+        "{T prvalue, T&&, const T&&, T&, const T&} x what the wrapper hands out {implicit conversion, get(), value(), xtl::value(), value_or(), real(), imag(), xtl::real(), xtl::imag(), operator*, operator->} "
+        "x the thing it initialises {const T& (lifetime extension), two such references at once, a const T& member of an aggregate, const T& from the temporary passed on as an xvalue, T&&, auto&&, T v = , T v( ), "
+        "v = , by-value return, a const T& parameter, const T& from a named wrapper in 3 value categories}: %d forms x payload {%s}; the result is judged AFTER the full-expression, when the wrapper "
+        "temporary is gone: it designates a live object (lifetime registry; AddressSanitizer shadow memory queried, nothing read through a dead reference) outside the dead wrapper's bytes, "
+        "holding the value; built from an rvalue: independent of the source object; built from an lvalue: the original or a copy, the original untouched. Static rows say the same for what the type system shows "
+        "of an implicit conversion (std::is_convertible<wrapper in 3 value categories, T& | const T& | T> over the 4 closure types x {int, Counted, int*}, xmasked_value, xproxy_wrapper_impl: 111 rows). "
+        "REFERENCE-LIKE PAYLOADS (gen_nest.py): the payload is itself a handle whose copy aliases, whose assignment writes through and whose swap is its own function found by ADL - "
+        "{xclosure_wrapper<int&> (closure(closure(x))), xclosure_wrapper<Counted&>, a proxy class hv::View<int> with an ADL swap} x outer wrapper {closure of the handle rvalue / lvalue, const_closure, proxy_wrapper, "
+        "masked_value, optional, closure_pointer of the handle rvalue / lvalue} x EVERY sequence of length <= %d (closure kinds) / <= %d (others) over {member swap, ADL swap, xtl::swap, move-assign, copy-assign from const, "
+        "assign value, write through b, copy-construct + write, move-construct + write, &a + write} that does not use a moved-from wrapper; after every step the two ultimate referents, what both wrappers read and "
+        "which object both handles designate are compared with a cell model evaluated in the generator (swap exchanges x and y, a = std::move(b) gives x the value of y and leaves y unspecified, nothing rebinds). "
         "distinct_nontrivial = static identities whose accepted type differs from the input type (counted once per identity, not per compiler) + dynamic scenarios in which at least one "
         "write changed the model state (so aliasing and ownership were actually distinguished) + conversion cases whose result was verified independent by writing both sides; "
         "distinct_outcome_traces counts distinct observation traces"
-        % (", ".join("%s -std=%s" % f for f in fronts), maxlen, bit_len))
+        % (", ".join("%s -std=%s" % f for f in fronts), maxlen, bit_len,
+           len([c for c in gen_tmp.cases() if not gen_tmp.listed(c, "int")]), ", ".join(p for _, p in gen_tmp.payloads(ctx.tier)), 2 if quick else 3, 1 if quick else 2))
     ctx.assumptions += [
         "the rule of the property statement is the oracle for types; where it leaves a choice (const_ variants on rvalues: T or const T; a const wrapper over a T& closure: T& or const T&; "
         "by-value returns: T or const T) both answers are accepted",
@@ -368,6 +492,10 @@ def run(ctx):
         "instantiations that are ill-formed on the pinned tree have no executions: they are listed in gen_static.known_ill_formed() / the caps tables of dyn.cpp, probed every run and reported as notes",
         "payload types: int, a copy/move-counting class and a move-only class; sequences longer than the bound, other payloads, volatile closures and arrays/functions as T are outside the bound",
         "AddressSanitizer (use-after-scope, use-after-return, heap-use-after-free) decides dangling references to int payloads; for class payloads the address registry decides independently",
+        "temporary wrappers: only expressions in which the LIBRARY decides between a value and a reference are judged; C++ itself makes `const T& r = *closure_pointer(T())`, a reference bound to an xvalue of the is-a "
+        "xproxy_wrapper_impl<T>, static_cast<const T&>(temporary wrapper) and references returned through a function dangle on any implementation: those forms are not enumerated",
+        "reference-like payloads: xoptional::swap (it calls std::swap qualified on the unchanged tree) and `using std::swap; swap(a, b)` on two xproxy_wrapper_impl objects (the class offers no swap of its own) "
+        "are not enumerated: see NOTES.md section 11; payload handles without a swap of their own (xoptional<T&,B&>, xbitset_reference) are outside the alphabet",
     ]
 
 
@@ -384,7 +512,7 @@ def replay(ctx, rec):
     if args and args[0] in MATRICES:
         os.makedirs(GEN, exist_ok=True)
         gen = MATRICES[args[0]]
-        cs = [c for c in gen.cases() if c.id == args[1]]
+        cs = [c for c in all_cases(gen, args[2]) if c.id == args[1]]
         if not cs:
             raise vlib.HarnessError("unknown %s case %s" % (args[0], args[1]))
         tag = args[2]
